@@ -399,6 +399,9 @@ func inlineLocal(fn *an.Fn, e ast.Expr) ast.Expr {
 		}
 		var def ast.Expr
 		n := 0
+		if isParamOrResult(fn, o) {
+			n++ // the value passed in is a definition too: a parameter assigned once has two
+		}
 		an.Inner(fn.Body, func(x ast.Node) bool {
 			switch s := x.(type) {
 			case *ast.AssignStmt:
@@ -475,4 +478,28 @@ func mentionsThroughLocals(fn *an.Fn, e ast.Node, obj types.Object, depth int) b
 		return true
 	})
 	return found
+}
+
+// isParamOrResult: o is a parameter, named result or the receiver of fn.
+func isParamOrResult(fn *an.Fn, o types.Object) bool {
+	var lists []*ast.FieldList
+	if fn.Type != nil {
+		lists = append(lists, fn.Type.Params, fn.Type.Results)
+	}
+	if fn.Decl != nil {
+		lists = append(lists, fn.Decl.Recv)
+	}
+	for _, fl := range lists {
+		if fl == nil {
+			continue
+		}
+		for _, f := range fl.List {
+			for _, nm := range f.Names {
+				if fn.Info.Defs[nm] == o {
+					return true
+				}
+			}
+		}
+	}
+	return false
 }
